@@ -35,14 +35,16 @@ type zzXExpect struct {
 }
 
 type zzExtra struct {
-	Name    string
-	Script  string
-	Mon     []string          // symbolic monetary variables
-	Bal     []string          // accounts with symbolic opening balance
-	Vars    map[string]string // concrete variables
-	Meta    map[string]metadata.Metadata
-	Assume  func(in *zzXIn) bool
-	Expect  func(in *zzXIn) zzXExpect
+	Name   string
+	Script string
+	Mon    []string          // symbolic monetary variables
+	Bal    []string          // accounts with symbolic opening balance
+	Vars   map[string]string // concrete variables
+	Meta   map[string]metadata.Metadata
+	Assume func(in *zzXIn) bool
+	Expect func(in *zzXIn) zzXExpect
+	// Invalid: a text the language rejects; the compiler must refuse it
+	Invalid bool
 }
 
 func zzM(asset string, v *big.Int) string { return asset + " " + v.String() }
@@ -50,14 +52,14 @@ func zzM(asset string, v *big.Int) string { return asset + " " + v.String() }
 var zzExtras = []zzExtra{
 	{Name: "save reduces what a later send can take",
 		Script: "vars {\nmonetary $s\nmonetary $m\n}\nsave $s from @a\nsend $m (\n  source = @a\n  destination = @b\n)\n",
-		Mon: []string{"s", "m"}, Bal: []string{"a"},
+		Mon:    []string{"s", "m"}, Bal: []string{"a"},
 		Expect: func(in *zzXIn) zzXExpect {
 			avail := verifhook.Max(zzZero, zzSub(in.bal["a"], in.v["s"]))
 			return zzXExpect{accept: verifhook.Le(in.v["m"], avail), posts: []zzXPost{{"a", "b", in.v["m"]}}}
 		}},
 	{Name: "save of a difference",
 		Script: "vars {\nmonetary $x\nmonetary $y\nmonetary $m\n}\nsave $x - $y from @a\nsend $m (\n  source = @a\n  destination = @b\n)\n",
-		Mon: []string{"x", "y", "m"}, Bal: []string{"a"},
+		Mon:    []string{"x", "y", "m"}, Bal: []string{"a"},
 		Expect: func(in *zzXIn) zzXExpect {
 			// a negative amount cannot be put aside: the script is refused
 			avail := verifhook.Max(zzZero, zzSub(in.bal["a"], zzSub(in.v["x"], in.v["y"])))
@@ -65,14 +67,14 @@ var zzExtras = []zzExtra{
 		}},
 	{Name: "save of a sum",
 		Script: "vars {\nmonetary $x\nmonetary $y\nmonetary $m\n}\nsave $x + $y from @a\nsend $m (\n  source = @a\n  destination = @b\n)\n",
-		Mon: []string{"x", "y", "m"}, Bal: []string{"a"},
+		Mon:    []string{"x", "y", "m"}, Bal: []string{"a"},
 		Expect: func(in *zzXIn) zzXExpect {
 			avail := verifhook.Max(zzZero, zzSub(in.bal["a"], zzAdd(in.v["x"], in.v["y"])))
 			return zzXExpect{accept: verifhook.Le(in.v["m"], avail), posts: []zzXPost{{"a", "b", in.v["m"]}}}
 		}},
 	{Name: "save all leaves nothing",
 		Script: "vars {\nmonetary $m\n}\nsave [USD/2 *] from @a\nsend $m (\n  source = {\n    @a\n    @b\n  }\n  destination = @c\n)\n",
-		Mon: []string{"m"}, Bal: []string{"a", "b"},
+		Mon:    []string{"m"}, Bal: []string{"a", "b"},
 		Expect: func(in *zzXIn) zzXExpect {
 			// after `save all`, @a holds nothing to give (a negative balance stays negative)
 			availA := verifhook.Max(zzZero, verifhook.Min(zzZero, in.bal["a"]))
@@ -83,7 +85,7 @@ var zzExtras = []zzExtra{
 		}},
 	{Name: "save between two sends",
 		Script: "vars {\nmonetary $m\nmonetary $s\nmonetary $n\n}\nsend $m (\n  source = @a\n  destination = @b\n)\nsave $s from @a\nsend $n (\n  source = @a\n  destination = @c\n)\n",
-		Mon: []string{"m", "s", "n"}, Bal: []string{"a"},
+		Mon:    []string{"m", "s", "n"}, Bal: []string{"a"},
 		Expect: func(in *zzXIn) zzXExpect {
 			a0 := verifhook.Max(zzZero, in.bal["a"])
 			ok1 := verifhook.Le(in.v["m"], a0)
@@ -93,14 +95,37 @@ var zzExtras = []zzExtra{
 		}},
 	{Name: "amount is a sum",
 		Script: "vars {\nmonetary $x\nmonetary $y\n}\nsend $x + $y (\n  source = @a\n  destination = @b\n)\n",
-		Mon: []string{"x", "y"}, Bal: []string{"a"},
+		Mon:    []string{"x", "y"}, Bal: []string{"a"},
 		Expect: func(in *zzXIn) zzXExpect {
 			t := zzAdd(in.v["x"], in.v["y"])
 			return zzXExpect{accept: verifhook.Le(t, verifhook.Max(zzZero, in.bal["a"])), posts: []zzXPost{{"a", "b", t}}}
 		}},
+	{Name: "amount is a sum, portioned source",
+		Script: "vars {\nmonetary $x\nmonetary $y\n}\nsend $x + $y (\n  source = {\n    1/2 from @a\n    1/2 from @b\n  }\n  destination = @c\n)\n",
+		Mon:    []string{"x", "y"}, Bal: []string{"a", "b"},
+		Expect: func(in *zzXIn) zzXExpect {
+			t := zzAdd(in.v["x"], in.v["y"])
+			two := big.NewInt(2)
+			fromB := new(big.Int).Div(t, two)
+			fromA := zzSub(t, fromB) // the leftover unit goes to the first portion
+			ok := verifhook.And(verifhook.Le(fromA, verifhook.Max(zzZero, in.bal["a"])), verifhook.Le(fromB, verifhook.Max(zzZero, in.bal["b"])))
+			return zzXExpect{accept: ok, posts: []zzXPost{{"a", "c", fromA}, {"b", "c", fromB}}}
+		}},
+	{Name: "amount is a difference, portioned source with remaining",
+		Script: "vars {\nmonetary $x\nmonetary $y\n}\nsend $x - $y (\n  source = {\n    1/2 from @a\n    remaining from @b\n  }\n  destination = @c\n)\n",
+		Mon:    []string{"x", "y"}, Bal: []string{"a", "b"},
+		Assume: func(in *zzXIn) bool { return verifhook.Ge(in.v["x"], in.v["y"]) },
+		Expect: func(in *zzXIn) zzXExpect {
+			t := zzSub(in.v["x"], in.v["y"])
+			two := big.NewInt(2)
+			fromB := new(big.Int).Div(t, two)
+			fromA := zzSub(t, fromB)
+			ok := verifhook.And(verifhook.Le(fromA, verifhook.Max(zzZero, in.bal["a"])), verifhook.Le(fromB, verifhook.Max(zzZero, in.bal["b"])))
+			return zzXExpect{accept: ok, posts: []zzXPost{{"a", "c", fromA}, {"b", "c", fromB}}}
+		}},
 	{Name: "amount is a difference",
 		Script: "vars {\nmonetary $x\nmonetary $y\n}\nsend $x - $y (\n  source = @a\n  destination = @b\n)\n",
-		Mon: []string{"x", "y"}, Bal: []string{"a"},
+		Mon:    []string{"x", "y"}, Bal: []string{"a"},
 		Assume: func(in *zzXIn) bool { return verifhook.Ge(in.v["x"], in.v["y"]) },
 		Expect: func(in *zzXIn) zzXExpect {
 			t := zzSub(in.v["x"], in.v["y"])
@@ -108,7 +133,7 @@ var zzExtras = []zzExtra{
 		}},
 	{Name: "cap is a difference, overdraft is a sum",
 		Script: "vars {\nmonetary $x\nmonetary $y\nmonetary $m\n}\nsend $m (\n  source = {\n    max $x - $y from @a\n    @b allowing overdraft up to $x + $y\n  }\n  destination = @c\n)\n",
-		Mon: []string{"x", "y", "m"}, Bal: []string{"a", "b"},
+		Mon:    []string{"x", "y", "m"}, Bal: []string{"a", "b"},
 		Assume: func(in *zzXIn) bool { return verifhook.Ge(in.v["x"], in.v["y"]) },
 		Expect: func(in *zzXIn) zzXExpect {
 			capA := zzSub(in.v["x"], in.v["y"])
@@ -119,7 +144,7 @@ var zzExtras = []zzExtra{
 		}},
 	{Name: "metadata from monetary arithmetic and numbers",
 		Script: "vars {\nmonetary $x\nmonetary $y\nnumber $n\n}\nset_tx_meta(\"sum\", $x + $y)\nset_tx_meta(\"diff\", $x - $y)\nset_tx_meta(\"num\", $n + 2)\nset_account_meta(@b, \"last\", $x)\nsend $x (\n  source = @world\n  destination = @b\n)\n",
-		Mon: []string{"x", "y"}, Vars: map[string]string{"n": "40"},
+		Mon:    []string{"x", "y"}, Vars: map[string]string{"n": "40"},
 		Expect: func(in *zzXIn) zzXExpect {
 			return zzXExpect{accept: true, posts: []zzXPost{{"world", "b", in.v["x"]}},
 				txMeta: map[string]string{"sum": zzM("USD/2", zzAdd(in.v["x"], in.v["y"])), "diff": zzM("USD/2", zzSub(in.v["x"], in.v["y"])), "num": "42"},
@@ -127,7 +152,7 @@ var zzExtras = []zzExtra{
 		}},
 	{Name: "account, asset, string and portion variables",
 		Script: "vars {\naccount $src\naccount $dst\nportion $p\nstring $note\nmonetary $m\n}\nset_tx_meta(\"note\", $note)\nset_tx_meta(\"who\", $src)\nsend $m (\n  source = $src\n  destination = {\n    $p to $dst\n    remaining to @rest\n  }\n)\n",
-		Mon: []string{"m"}, Bal: []string{"payer"}, Vars: map[string]string{"src": "payer", "dst": "payee", "p": "1/4", "note": "hello"},
+		Mon:    []string{"m"}, Bal: []string{"payer"}, Vars: map[string]string{"src": "payer", "dst": "payee", "p": "1/4", "note": "hello"},
 		Expect: func(in *zzXIn) zzXExpect {
 			q := new(big.Int).Div(in.v["m"], big.NewInt(4))
 			rest3 := new(big.Int).Div(new(big.Int).Mul(in.v["m"], big.NewInt(3)), big.NewInt(4))
@@ -139,7 +164,7 @@ var zzExtras = []zzExtra{
 		}},
 	{Name: "balance() as amount and as cap",
 		Script: "vars {\nmonetary $all = balance(@a, USD/2)\nmonetary $m\n}\nsend $all (\n  source = @a\n  destination = @b\n)\nsend $m (\n  source = max $all from @c\n  destination = @d\n)\n",
-		Mon: []string{"m"}, Bal: []string{"a", "c"},
+		Mon:    []string{"m"}, Bal: []string{"a", "c"},
 		Assume: func(in *zzXIn) bool { return verifhook.Ge(in.bal["a"], zzZero) },
 		Expect: func(in *zzXIn) zzXExpect {
 			fromC := verifhook.Min(in.v["m"], verifhook.Min(in.bal["a"], verifhook.Max(zzZero, in.bal["c"])))
@@ -147,11 +172,19 @@ var zzExtras = []zzExtra{
 		}},
 	{Name: "meta() gives the source and a cap",
 		Script: "vars {\naccount $s = meta(@cfg, \"src\")\nmonetary $cap = meta(@cfg, \"cap\")\nmonetary $m\n}\nsend $m (\n  source = max $cap from $s\n  destination = @b\n)\n",
-		Mon: []string{"m"}, Bal: []string{"vault"}, Meta: map[string]metadata.Metadata{"cfg": {"src": "vault", "cap": "USD/2 100"}},
+		Mon:    []string{"m"}, Bal: []string{"vault"}, Meta: map[string]metadata.Metadata{"cfg": {"src": "vault", "cap": "USD/2 100"}},
 		Expect: func(in *zzXIn) zzXExpect {
 			avail := verifhook.Min(big.NewInt(100), verifhook.Max(zzZero, in.bal["vault"]))
 			return zzXExpect{accept: verifhook.Le(in.v["m"], avail), posts: []zzXPost{{"vault", "b", in.v["m"]}}}
 		}},
+	// texts with characters no token of the language contains: refused, not "repaired"
+	{Name: "a dot in an account name", Invalid: true, Script: "send [USD/2 100] (\n  source = @world\n  destination = @shop.eu\n)\n"},
+	{Name: "a currency sign after an amount", Invalid: true, Script: "send [USD/2 100€] (\n  source = @world\n  destination = @shop\n)\n"},
+	{Name: "an exclamation mark after an account", Invalid: true, Script: "send [USD/2 100] (\n  source = @world\n  destination = @bob!\n)\n"},
+	{Name: "a hash after a number", Invalid: true, Script: "send [USD/2 42#] (\n  source = @world\n  destination = @bob\n)\n"},
+	{Name: "a stray word", Invalid: true, Script: "send [USD/2 1] (\n  source = @world please\n  destination = @bob\n)\n"},
+	{Name: "an unterminated block", Invalid: true, Script: "send [USD/2 1] (\n  source = @world\n  destination = @bob\n"},
+	{Name: "a type error", Invalid: true, Script: "send @bob (\n  source = @world\n  destination = @bob\n)\n"},
 }
 
 func ZZ_C08XN() int { return len(zzExtras) }
@@ -163,6 +196,11 @@ func ZZ_C08XDesc(i int) string { return zzExtras[i].Name + ": " + zzExtras[i].Sc
 func ZZ_C08X(shape int) {
 	x := &zzExtras[shape]
 	p, err := compiler.Compile(x.Script)
+	if x.Invalid {
+		verifhook.Reach("invalid-text")
+		verifhook.Assert(err != nil, "C08 a text the language rejects is compiled: "+x.Name)
+		return
+	}
 	verifhook.Assert(err == nil, "C08 a well-formed program is refused by the compiler")
 	if err != nil {
 		return
